@@ -329,9 +329,12 @@ PadT(x) ==
                   @@ [tol |-> IF val = 0 THEN "exact" ELSE "roundoff"]
 PadM(A) ==
     /\ "pad_m" \in OPS /\ A.k = "ttm"
-    /\ \E w \in WidthSeqs(Len(A.I)), val \in {0, 3, -2} :
-        LET d == Len(A.I)  D == DPadM(Full(Mk(A)), d, w, <<val, 0>>) IN
-        /\ case' = [op |-> "pad_m", x |-> A, w |-> w, val |-> val]
+    \* paddings for the trailing k modes; the leading d - k modes are not padded (width <<0, 0>>): their diagonal blocks are empty,
+    \* so with k < d the result is the zero embedding of A whatever the value
+    /\ \E k \in 1..Len(A.I) : \E w0 \in WidthSeqs(k), val \in {0, 3, -2} :
+        LET d == Len(A.I)  w == [p \in 1..(d - k) |-> <<0, 0>>] \o w0
+            D == DPadM(Full(Mk(A)), d, w, <<val, 0>>) IN
+        /\ case' = [op |-> "pad_m", x |-> A, w |-> w0, val |-> val]
         /\ res' = ValRes("ttm", SubSeq(D.sh, 1, d), SubSeq(D.sh, d + 1, 2*d), D, "must") @@ [tol |-> "exact"]
 \* mode products: factor matrix for mode p has shape <<(N[p] % 3) + 1, N[p]>> and the canonical dense fill
 MatFor(x, p) == DenseFill(<<(x.I[p] % 3) + 1, x.I[p]>>, x.f + p + 1, x.cx)
